@@ -8,6 +8,7 @@ Definition dec_item (v : val) : res (Z + string) :=
   match v with VInt z => ok (inl z) | VStr s => ok (inr s) | _ => fail EDecode end.
 Definition dec_elsel (v : val) : res elsel :=
   match v with
+  | VNone => ok SelNone
   | VInt z => ok (SelInt z)
   | VStr s => ok (SelStr s)
   | VList l => do items <- mapM dec_item l; ok (SelList items)
